@@ -61,7 +61,7 @@ def run(ctx):
     if quick:
         hs, _ = sc.slice_cases(hs, 500, ctx.seed + 3)
     else:
-        hs4, _ = sc.slice_cases(generate(ctx, 4, ["Q", "IS", "N"]), 12000, key="smart4")
+        hs4, _ = sc.slice_cases(generate(ctx, 4, ["Q", "IS", "N"]), 6000, key="smart4")
         hs += hs4
     cases = []
     for auto in ([], [2]):
